@@ -155,7 +155,7 @@ Lemma parse_coef_doc : forall l : list (list float), opt_all (map parse_floats (
 Proof. intros l. apply opt_all_map_inv. intros x _. apply parse_floats_doc. Qed.
 
 (* looking the stored entries up by name along the SAME order they were written in changes nothing *)
-Lemma scaler_doc_keys : forall ts loc scale fs, scaler_doc ts loc scale = Some fs -> map fst fs = ts.
+Lemma scaler_doc_keys : forall ts loc scale fs, scaler_doc ts loc scale = Some fs -> map fst fs = map str_config ts.
 Proof.
   induction ts as [|k ts IH]; intros loc scale fs H; cbn in H.
   - injection H as <-. reflexivity.
